@@ -208,7 +208,12 @@ def run_disp_impl(case):
         total[0] = 0
         try:
             if op[0] == "create":
+                before = dict(protos[op[1]].__dict__)
                 create_dispatcher(protos[op[1]])
+                if wrappers.get(op[1]):
+                    after = protos[op[1]].__dict__
+                    if any(after.get(k) is not before.get(k) for k in ("initialize", "handle_timer", "handle_telemetry", "handle_packet", "finish")):
+                        log.append("rewrapped")
                 wrappers[op[1]] = True
             elif op[0] in ("reg", "unreg"):
                 reop(op)
